@@ -344,7 +344,8 @@ PLANS["C15"] = {
     "rule": "exhaustive: all (src w, src h, dst w, dst h) in 1..=24 with 4 centerings; random: 10^7 (quick) / 2*10^10 (thorough) quadruples "
             "in 1..=65 535 biased to near-equal ratios (dst = k*src +- 1), centerings incl. 0, 0.5, 1, -3, 7, +-inf, 1-eps; the returned box "
             "must be inside the source as the validator judges it, have the destination aspect to 1e-12, span one dimension, and sit at the "
-            "clamped centering of the margin; resize: fit_into_destination through Resizer::resize on identity-tagged images never errors and "
+            "clamped centering of the margin; resize: fit_into_destination through Resizer::resize_typed and the dynamic Resizer::resize on identity-tagged images (every size "
+            "quadruple in 1..=10 first, then random sizes to 700) never errors and "
             "gives exactly the result of an explicit crop() with the box fit_src_into_dst_size returns (so the option cannot place the box "
             "elsewhere); "
             "non-trivial = every block / case; distinct = distinct descriptor",
